@@ -18,10 +18,19 @@ fn main() {
         let workers = j["workers"].as_u64().unwrap_or(2) as usize;
         let q = j["q"].as_u64().unwrap_or(1000) as usize;
         let io = j["io"].as_bool().unwrap_or(false);
+        // optional in-memory modules: {"name": "source", "ns/name": "source"}
+        let mut modules = std::collections::HashMap::new();
+        if let Some(J::Object(m)) = j.get("modules") {
+            for (name, src) in m {
+                let path: Vec<String> = name.split('/').map(|s| s.to_string()).collect();
+                modules.insert(path, src.as_str().unwrap_or("").to_string());
+            }
+        }
         let mut sim = Sim::new(SimConfig {
             workers,
             io,
             record: false,
+            modules,
             ..Default::default()
         });
         let lines: Vec<String> = match j.get("lines") {
